@@ -10,6 +10,8 @@ from concurrent.futures import ThreadPoolExecutor
 
 PROP = "C11"
 ROOT = os.path.dirname(os.path.dirname(os.path.abspath(__file__)))
+# lemma subprocesses see /verif first and then whatever the driver was given (a scratch source tree when screening seeded changes)
+_PYPATH = os.pathsep.join([ROOT] + [p for p in os.environ.get("PYTHONPATH", "").split(os.pathsep) if p and p != ROOT])
 LEMMAS = {
     "quick": ["trn_flat", "trn_two_utts", "trn_path_vs_file", "ctm_path_vs_file", "textgrid_path_vs_file"],
     "thorough": ["trn_flat", "trn_two_utts", "trn_path_vs_file", "ctm_path_vs_file", "textgrid_path_vs_file", "trn_flat3"],
@@ -49,7 +51,7 @@ def run_lemma(name, timeout):
     cmd = [os.path.join(ROOT, ".venv", "bin", "python"), "-W", "ignore", "-m", "checks.xh", "check", "--report_all",
            "--per_condition_timeout", str(timeout), f"checks.c11_lemmas.{name}"]
     try:
-        p = subprocess.run(cmd, cwd=ROOT, capture_output=True, text=True, timeout=timeout * 2 + 120, env=dict(os.environ, PYTHONPATH=ROOT))
+        p = subprocess.run(cmd, cwd=ROOT, capture_output=True, text=True, timeout=timeout * 2 + 120, env=dict(os.environ, PYTHONPATH=_PYPATH))
         out = p.stdout + p.stderr
     except subprocess.TimeoutExpired:
         out = "timeout"
@@ -65,7 +67,7 @@ def run_lemma(name, timeout):
         # replay the reported counterexample concretely against the real code
         code = f"import warnings; warnings.simplefilter('ignore'); import checks.c11_lemmas as L; print('REPLAY', L.{call})"
         rp = subprocess.run([os.path.join(ROOT, ".venv", "bin", "python"), "-W", "ignore", "-c", code], cwd=ROOT, capture_output=True, text=True,
-                            env=dict(os.environ, PYTHONPATH=ROOT))
+                            env=dict(os.environ, PYTHONPATH=_PYPATH))
         failed = ("REPLAY False" in rp.stdout) or (rp.returncode != 0 and "Error" in rp.stderr)
         if failed:
             res["status"] = "violation"
@@ -91,7 +93,7 @@ def extra(tier, seed):
         out = list(ex.map(lambda n: run_lemma(n, TIMEOUT[tier]), names))
     # concrete probe of the listed finding's input (never added to at run time; see known_findings.json)
     code = "import warnings; warnings.simplefilter('ignore'); import checks.c11_lemmas as L; print('PRESENT', L.textgrid_finding_present())"
-    rp = subprocess.run([os.path.join(ROOT, ".venv", "bin", "python"), "-W", "ignore", "-c", code], cwd=ROOT, capture_output=True, text=True, env=dict(os.environ, PYTHONPATH=ROOT))
+    rp = subprocess.run([os.path.join(ROOT, ".venv", "bin", "python"), "-W", "ignore", "-c", code], cwd=ROOT, capture_output=True, text=True, env=dict(os.environ, PYTHONPATH=_PYPATH))
     if "PRESENT True" in rp.stdout:
         out.append(dict(name="probe:textgrid-path-options", status="finding", label="textgrid-path-options", inputs="write_textgrid([('a', 0.12345678, 0.12345678)], path, tier_name='T', point_tier=False, precision=0)", obligations=0))
     elif "PRESENT False" not in rp.stdout:
